@@ -19,22 +19,32 @@ from vlib import cq, cz, cbool, clist  # noqa: E402
 from translate import multinet as tm  # noqa: E402
 
 CLAIM = {
-    "text": "Theorems over R on the formulas regenerated from multinet_control.py on every run: the value each coupling "
-            "controller writes (P2G, G2P gas-led and power-led, gas-to-gas) as a function of the scaled cell it reads, "
-            "identical for scalar and vector element indices; the calorific value is the fluid's hhv and the cells read / "
-            "written are the documented ones; P2G followed by G2P returns P*eta1*eta2, gas power of the written flow = "
-            "eta * scaled input (both directions), gas-to-gas conserves eta * energy, power-led is the inverse of gas-led. "
-            "Unbounded theorems on an executable model of _relevant_nets / _evaluate_multinet (any number of nets, "
-            "controllers, levels): converged = all flags; a net is re-evaluated iff it owns a controller of the level or "
-            "a multinet controller of the level names it; converged implies every affected net's fresh flag; one diverged "
-            "affected net makes the multinet not converged. The model is tied to run_control_multinet.py by an exact "
-            "correspondence with scripted run functions; real coupled runs are compared with stand-alone runs bit by bit.",
-    "note": "Theorems over R use the standard-library real axioms (ClassicalDedekindReals.sig_forall_dec, "
-            "FunctionalExtensionality.functional_extensionality_dep); the bookkeeping theorems are axiom-free. Oracles: "
-            "pandapower control_implementation / _evaluate_net / get_controller_order / ConstControl / run_timeseries, "
-            "runpp, pipeflow. after_run_is_standalone is a monitor (bit-identical differential), not a theorem. Written "
-            "cells are compared at 1e-12 relative (hhv is a decimal), inside Coq against the Q twin of the generated "
-            "formula. Member nets of the generated multinets differ in content (pandapower compares nets by value).",
+    "text": "18 theorems. Over R on formulas regenerated from multinet_control.py each run: the value every coupling "
+            "controller writes (P2G, G2P gas-led and power-led, gas-to-gas) for scalar and vector indices alike, the "
+            "calorific value is the fluid's hhv and the cells read / written are the documented ones, P2G then G2P returns "
+            "P*eta1*eta2, per-controller and whole-run energy balance for ANY number of controllers of any kinds (power out "
+            "= efficiency-weighted power in; none created for eta <= 1; lossless for eta = 1), gas-to-gas conserves eta * "
+            "energy, power-led is the inverse of gas-led. Unbounded over an executable model of _relevant_nets / "
+            "_evaluate_multinet / net_initialization_multinet (any number of nets, controllers, levels): converged = all "
+            "flags, a net is re-evaluated iff it owns a controller of the level or a multinet controller of the level names "
+            "it, converged implies every affected net's fresh flag, one diverged affected net makes the multinet not "
+            "converged, initial-run flag = conjunction; a converged level composes with the energy balance. "
+            "after_run_is_standalone for pandapipes members as an instance of the C12 history model, and the coupled time "
+            "series step = stand-alone calculation as an instance of the C13 step model for any list of chain-free coupling "
+            "controllers. Tie: exact in-Coq correspondence with the real prepare_run_ctrl / _evaluate_multinet / "
+            "net_initialization_multinet driven by scripted run functions.",
+    "note": "Theorems over R use the standard-library real axioms (ClassicalDedekindReals.sig_forall_dec, sig_not_dec, "
+            "FunctionalExtensionality.functional_extensionality_dep); bookkeeping, Standalone and the C13 instance's model "
+            "part are axiom-free apart from those reals. Assumed (oracles): pandapower control_implementation calls the "
+            "evaluate function once per control iteration of a level and raises when ctrl_variables['converged'] is false; "
+            "_evaluate_net sets the flag from net['converged']; get_controller_order sorts by level / order; ConstControl "
+            "and run_timeseries apply the profile row of the step; runpp is a deterministic function of the pandapower "
+            "net's element tables and options that does not modify them (power members are NOT in the C12 model: their "
+            "stand-alone equality is a bit-identical differential only); no coupling chain inside a step and profiles drive "
+            "no written cell (guards no_chain / profiles_free of the time-series theorem - the monitor builds such "
+            "multinets). Monitors only: written cells vs spec_* at 1e-12 relative (hhv is decimal), member results "
+            "bit-identical with stand-alone runs (gas, heat incl. a harness-written power-to-heat coupling, power), aborted "
+            "runs followed by further runs, divergence injection. Standalone.v / PropsRun.v import PP.C12 / PP.C13.",
     "technique": "Coq proof over generated kernels + hand model tied by exact correspondence + bit-identical differential",
     "design": "DESIGN.md 4/C20 + design_notes/C20.md",
 }
@@ -946,7 +956,15 @@ def run(ctx):
                 ctx.gen(name, fn())
     except Exception as e:
         ctx.broken("translator", "C12 generators (needed by C20/Standalone.v)", repr(e))
-    ctx.prove("C20", props="Standalone")
+    for extra in ("Standalone", "PropsRun"):    # these import other properties' developments (PP.C12, PP.C13)
+        n_obl, n_brk = len(ctx.obligations), len(ctx.brokens)
+        if not ctx.prove("C20", props=extra):
+            # another check may be rebuilding C12 / C13 at this moment: one retry before it counts
+            import time as _t
+            _t.sleep(20)
+            del ctx.obligations[n_obl:]
+            del ctx.brokens[n_brk:]
+            ctx.prove("C20", props=extra)
     if not proved:
         ctx.make(["C20/Model.vo", "Gen/KConv.vo"])
     ctx.assumptions.append("pandapower control_implementation calls the evaluate function once per control iteration of a "
